@@ -9,6 +9,7 @@ import struct
 OCTET_POOL = [0x00, 0x01, 0x09, 0x0A, 0x0D, 0x1F, 0x20, 0x21, 0x22, 0x24, 0x28, 0x29, 0x2C, 0x2E, 0x30, 0x31, 0x39, 0x3B,
               0x3D, 0x40, 0x41, 0x5A, 0x5B, 0x5C, 0x60, 0x61, 0x7A, 0x7B, 0x7E, 0x7F, 0x80, 0xA0, 0xC3, 0xC8, 0xE2, 0xFE,
               0xFF]
+EDGE = [0x0A, 0x0A, 0x0D, 0x09, 0x20, 0x00, 0x7F, 0x0B, 0x0C, 0x1F, 0x85, 0xA0]
 LETTERS = [0x61, 0x62, 0x41, 0x42, 0x63, 0x30, 0x2D]
 BLOB_LENS = [0, 1, 2, 3, 4, 15, 16, 17, 23, 24, 25, 31, 32, 33, 47, 48, 49, 63, 64, 65, 96, 97, 130]
 U16 = [0, 1, 2, 9, 10, 99, 100, 255, 256, 257, 1000, 32767, 32768, 65534, 65535]
@@ -43,9 +44,24 @@ class G:
         return struct.pack("!I", self.u32())
 
     # --- octet strings
+    def edged(self, s):
+        """a control / blank octet placed at the end, the start or inside an otherwise plain value (validators that
+        anchor with `$`, strip, or split on whitespace; printers that emit such an octet raw)"""
+        s = bytearray(s)
+        e = self.r.choice(EDGE)
+        k = self.r.below(4)
+        if k <= 1 or not s:
+            return bytes(s + bytes([e]))
+        if k == 2:
+            return bytes(bytes([e]) + s)
+        i = self.r.below(len(s))
+        return bytes(s[:i] + bytes([e]) + s[i:])
+
     def octets(self, n):
-        m = self.r.below(5)
-        if m == 0:
+        m = self.r.below(6)
+        if m == 5 and n >= 1:
+            return self.edged(self.r.bytes(n - 1, LETTERS))
+        if m == 0 or m == 5:
             return self.r.bytes(n, LETTERS)
         if m == 1:
             return self.r.bytes(n)
@@ -69,7 +85,9 @@ class G:
     # --- names
     def label(self, maxlen=63):
         n = min(self.r.choice([1, 1, 1, 2, 2, 3, 5, 8, 31, 62, 63]), maxlen)
-        m = self.r.below(4)
+        m = self.r.below(5)
+        if m == 4:
+            return self.edged(self.r.bytes(n - 1, LETTERS))
         if m == 0:
             return self.r.bytes(n, LETTERS)
         if m == 1:
@@ -213,6 +231,8 @@ def w_gpos(g):
         else:
             s = f"{g.r.below(90)}.{'0' * g.r.below(4)}{g.r.below(10)}"
         s = (sign + s).encode()
+        if g.r.chance(1, 5):
+            s = g.edged(s)   # not a float string any more: must be rejected, never printed raw
         return bytes([len(s)]) + s
 
     return f() + f() + f()
@@ -386,6 +406,8 @@ def w_caa(g):
         tag = b""
     elif m == 1:
         tag = g.octets(g.r.choice([1, 2, 5]))
+    elif m == 2:
+        tag = g.edged(g.r.bytes(g.r.choice([1, 5, 9]), [0x61, 0x7A, 0x41, 0x5A, 0x30, 0x39, 0x69, 0x73]))
     else:
         tag = g.r.bytes(g.r.choice([1, 5, 5, 9, 15, 255]), [0x61, 0x7A, 0x41, 0x5A, 0x30, 0x39, 0x69, 0x73])
     return g.p8() + bytes([len(tag)]) + tag + g.r.choice([b"", g.octets(g.r.choice([0, 1, 5, 20, 300]))])
